@@ -1,0 +1,120 @@
+//go:build verif
+
+package table
+
+import (
+	enc "github.com/named-data/ndnd/std/encoding"
+)
+
+// Read-only dumps and accessors for the verification harness (property C19). No behaviour change.
+
+type Vf19Cost struct {
+	Hop  enc.Name // nil when the hash is not in rib.neighbors
+	HopH uint64
+	Cost uint64
+}
+
+type Vf19RibEntry struct {
+	Name      enc.Name
+	NextHop1H uint64
+	NextHop2H uint64
+	NextHop1  enc.Name // nil when the hash is 0 or unknown to rib.neighbors
+	NextHop2  enc.Name
+	Lowest1   uint64
+	Lowest2   uint64
+	Costs     []Vf19Cost
+}
+
+// Vf19Dump returns every RIB entry (including unreachable ones that Prune has not yet removed).
+func (r *Rib) Vf19Dump() []Vf19RibEntry {
+	out := make([]Vf19RibEntry, 0, len(r.entries))
+	for _, e := range r.entries {
+		d := Vf19RibEntry{
+			Name:      e.name,
+			NextHop1H: e.nextHop1,
+			NextHop2H: e.nextHop2,
+			NextHop1:  r.neighbors[e.nextHop1],
+			NextHop2:  r.neighbors[e.nextHop2],
+			Lowest1:   e.lowest1,
+			Lowest2:   e.lowest2,
+		}
+		for h, c := range e.costs {
+			d.Costs = append(d.Costs, Vf19Cost{Hop: r.neighbors[h], HopH: h, Cost: c})
+		}
+		out = append(out, d)
+	}
+	return out
+}
+
+type Vf19Neighbor struct {
+	Name         enc.Name
+	FaceId       uint64
+	IsFaceActive bool
+}
+
+func (nt *NeighborTable) Vf19Dump() []Vf19Neighbor {
+	out := make([]Vf19Neighbor, 0, len(nt.neighbors))
+	for _, ns := range nt.neighbors {
+		out = append(out, Vf19Neighbor{Name: ns.Name, FaceId: ns.faceId, IsFaceActive: ns.isFaceActive})
+	}
+	return out
+}
+
+func (ns *NeighborState) Vf19FaceId() uint64 { return ns.faceId }
+
+// Vf19Routers returns the per-router records of the prefix table (the publisher's own record included).
+func (pt *PrefixTable) Vf19Routers() []*PrefixTableRouter {
+	out := make([]*PrefixTableRouter, 0, len(pt.routers))
+	for _, r := range pt.routers {
+		out = append(out, r)
+	}
+	return out
+}
+
+// Vf19Peek returns the record of a router without creating it.
+func (pt *PrefixTable) Vf19Peek(name enc.Name) *PrefixTableRouter { return pt.routers[name.Hash()] }
+
+func (pt *PrefixTable) Vf19Me() *PrefixTableRouter { return pt.me }
+func (pt *PrefixTable) Vf19SnapshotAt() uint64     { return pt.snapshotAt }
+
+// Vf19RepoHas reports whether the in-memory repo holds a packet stored under exactly this name.
+func (pt *PrefixTable) Vf19RepoHas(name enc.Name) bool {
+	pt.repoMutex.RLock()
+	defer pt.repoMutex.RUnlock()
+	return pt.repo[name.Hash()] != nil
+}
+
+func (pt *PrefixTable) Vf19RepoLen() int {
+	pt.repoMutex.RLock()
+	defer pt.repoMutex.RUnlock()
+	return len(pt.repo)
+}
+
+type Vf19FibEntry struct {
+	FaceId   uint64
+	Cost     uint64
+	PrevCost uint64
+}
+
+type Vf19FibPrefix struct {
+	Name    enc.Name // fib.names[hash]; nil when missing
+	Hash    uint64
+	Marked  bool
+	Entries []Vf19FibEntry
+}
+
+// Vf19Dump returns the installer's own record of what it has registered (fib.prefixes with names and marks).
+func (fib *Fib) Vf19Dump() []Vf19FibPrefix {
+	out := make([]Vf19FibPrefix, 0, len(fib.prefixes))
+	for h, es := range fib.prefixes {
+		p := Vf19FibPrefix{Name: fib.names[h], Hash: h, Marked: fib.mark[h]}
+		for _, e := range es {
+			p.Entries = append(p.Entries, Vf19FibEntry{FaceId: e.FaceId, Cost: e.Cost, PrevCost: e.prevCost})
+		}
+		out = append(out, p)
+	}
+	return out
+}
+
+// Vf19Sizes returns len(prefixes), len(names), len(mark).
+func (fib *Fib) Vf19Sizes() (int, int, int) { return len(fib.prefixes), len(fib.names), len(fib.mark) }
